@@ -7,6 +7,9 @@ mod gen;
 mod model;
 mod report;
 mod run;
+mod spell;
+mod tomlcheck;
+mod vals;
 mod util;
 mod yamlread;
 
@@ -22,6 +25,21 @@ fn main() {
 	let args: Vec<String> = std::env::args().collect();
 	if args.len() < 3 {
 		usage();
+	}
+	if args[1] == "dbg-strings" {
+		let to = run::F::parse(&args[2]).unwrap();
+		let mut fam = vals::string_family();
+		fam.extend(vals::all_scalar_strings(1));
+		for s in fam {
+			let v = model::V::Arr(vec![model::V::s(&s)]);
+			let input = spell::spell_doc(run::F::Msgpack, &v, spell::Style(0)).unwrap();
+			let o = run::run_slice(&input, Some(run::F::Msgpack), to);
+			let d = checks::common::read_output_dumps(to, &o.out);
+			if !o.ok || d.as_ref().ok() != Some(&vec![v.dump()]) {
+				println!("{:?} -> ok={} out={} read={:?}", s, o.ok, util::show(&o.out), d);
+			}
+		}
+		return;
 	}
 	if args[1] == "replay" {
 		std::process::exit(checks::replay_file(&args[2]));
